@@ -1771,7 +1771,7 @@ func TestVerif(t *testing.T) {
 }
 
 var realC = []string{"cmd/thermal-recorder: ParseConfig, LoadMotionConfig, handleConn, frameParser, convertRawBosonFrame, CPTVFileRecorder (all methods), deleteTempFiles", "headers.ReadHeaderInfo", "motion, throttle, recorder, loglimiter packages", "go-cptv writer/reader/compressor", "lepton3.ParseRawFrame", "go-config + viper + flock on a real config.toml", "window", "real directory tree under VERIF_SCRATCH"}
-var stubC = []string{"camera daemon (simulated peer on a net.Pipe speaking the wire protocol, header produced with the yaml.v1 encoder and the headers.* constants)", "clock (testing/synctest fake clock)", "D-Bus: outbound calls fail fast (no system bus); inbound requests are direct calls of the service functions", "runMain (listener, periph host init, config watcher) is not executed; its sequence deleteTempFiles -> handleConn per connection is re-enacted"}
+var stubC = []string{"camera daemon (simulated peer on a net.Pipe speaking the wire protocol, header produced with the yaml.v1 encoder and the headers.* constants)", "clock (testing/synctest fake clock)", "D-Bus: outbound calls fail fast (no system bus); inbound requests are direct calls of the service functions", "free disk space: the real statfs answer, except in C04-focused runs with a simulated disk (free space set exactly at / just above / just below the configured minimum) behind syscall.Statfs", "runMain (listener, periph host init, config watcher) is not executed; its sequence deleteTempFiles -> handleConn per connection is re-enacted"}
 
 func unitsC() []verifsim.Unit {
 	return []verifsim.Unit{
